@@ -93,15 +93,27 @@ Definition osrm_rows (x : exchange) (asked : list nat) (maxt : Z) : outcome (lis
           | Some du, Some di =>
               if is_null du || is_null di then Ok []
               else
-                match jidx du 0, jidx di 0 with
-                | Some d0, Some x0 =>
-                    if is_null d0 || is_null x0 then Ok []
+                (* the source's `&&` is evaluated left to right and stops at the first false test:
+                   durations[0] is read (and may throw) and tested BEFORE distances[0] is read.  On the reply shape
+                   {"durations":[null],"distances":5} (durations = an array whose entry 0 is null or missing, distances =
+                   non-null and not an array) distances[0] — which would throw — is therefore never evaluated and the
+                   answer is the empty list.  An earlier version of this model read both entries together and answered
+                   Exn 3 there; the translator tie (Proofs/OsrmTie.v, reply_tie against gen/OsrmReply.v) found it. *)
+                match jidx du 0 with
+                | None => Exn 3
+                | Some d0 =>
+                    if is_null d0 then Ok []
                     else
-                      let n := jsize d0 in
-                      if Nat.ltb 0 n && Nat.ltb 0 (jsize x0)
-                      then osrm_loop d0 x0 asked 1 n maxt n
-                      else Ok []
-                | _, _ => Exn 3
+                      match jidx di 0 with
+                      | None => Exn 3
+                      | Some x0 =>
+                          if is_null x0 then Ok []
+                          else
+                            let n := jsize d0 in
+                            if Nat.ltb 0 n && Nat.ltb 0 (jsize x0)
+                            then osrm_loop d0 x0 asked 1 n maxt n
+                            else Ok []
+                      end
                 end
           | _, _ => Exn 3
           end
